@@ -309,3 +309,54 @@ Definition leaky (m : module) : bool :=
   | Some (P, _) =>
       existsb (fun fe => negb (is_std fe) && leaky_seq (f_args (fe_fn fe)) (f_cards (fe_fn fe))) P
   end.
+
+(* ------------------------------------------------------------------------------------------ *)
+(* The class of the finding R-4: a loop variable or a closure parameter re-uses the name of a   *)
+(* variable that is visible already (shadowing); a closure that names it captures the          *)
+(* outermost variable of that name instead of the innermost.  Used to LABEL a disagreement     *)
+(* (code 13).                                                                                  *)
+(* ------------------------------------------------------------------------------------------ *)
+Fixpoint shadow_card (vis : list str) (c : card) {struct c} : bool :=
+  let many := fix go (l : list card) : bool :=
+                match l with [] => false | x :: r => shadow_card vis x || go r end in
+  match c with
+  | CSetVar _ v | CSetGlobalVar _ v => shadow_card vis v
+  | CBin _ a b => shadow_card vis a || shadow_card vis b
+  | CUn _ a => shadow_card vis a
+  | CTri _ a b d => shadow_card vis a || shadow_card vis b || shadow_card vis d
+  | CCallNative _ args | CCall _ args | CArray args => many args
+  | CComposite _ cs =>
+      (fix go (l : list card) (vis : list str) : bool :=
+         match l with
+         | [] => false
+         | x :: r => shadow_card vis x || go r (new_decls vis x ++ vis)
+         end) cs vis
+  | CDynamicCall f args => shadow_card vis f || many args
+  | CRepeat i n b =>
+      let lv := opt_names [i] in
+      existsb (fun x => mem x vis) lv || shadow_card vis n ||
+      shadow_card (lv ++ new_decls (lv ++ vis) b ++ vis) b
+  | CForEach i k v it b =>
+      let lv := opt_names [v; k; i] in
+      existsb (fun x => mem x vis) lv || shadow_card vis it ||
+      shadow_card (lv ++ new_decls (lv ++ vis) b ++ vis) b
+  | CClosure params cs =>
+      existsb (fun x => mem x vis) params ||
+      (fix go (l : list card) (vis : list str) : bool :=
+         match l with
+         | [] => false
+         | x :: r => shadow_card vis x || go r (new_decls vis x ++ vis)
+         end) cs (params ++ vis)
+  | _ => false
+  end.
+Fixpoint shadow_seq (vis : list str) (cs : list card) : bool :=
+  match cs with
+  | [] => false
+  | c :: r => shadow_card vis c || shadow_seq (new_decls vis c ++ vis) r
+  end.
+Definition shadowing (m : module) : bool :=
+  match program_of m with
+  | None => false
+  | Some (P, _) =>
+      existsb (fun fe => negb (is_std fe) && shadow_seq (f_args (fe_fn fe)) (f_cards (fe_fn fe))) P
+  end.
